@@ -248,6 +248,23 @@ CLAIMS["C11"] = dict(
          "scope resolution over all programs and is not decided; the rule only proves the rewrite touches nothing else.",
     technique="truth-table interpretation of the sibling gates + effect sequence on the accept path + write-set/guard analysis of the rewrite callback")
 
+CLAIMS["C08"] = dict(
+    level="other", engine="pyflow",
+    text="Result equivalence of plan execution is NOT decided. Decided are necessary conditions of the statement's last sentence, "
+         "as complete truth tables of the join planner's own decision code obtained by interpreting its functions on abstract "
+         "stand-ins (fail-closed AST interpreter, ~2500 rows): check_query_conditions hands only top-level WHERE conjuncts to the "
+         "per-table filter collector (15 WHERE shapes: AND chains, OR, NOT, function argument, CASE, IN sub-select, BETWEEN) and "
+         "counts all conjuncts; check_node_condition registers only column-vs-constant comparisons, never IS NULL, and the "
+         "registered copy is the same comparison; get_filters_from_join_conditions returns nothing for every join kind of the "
+         "grammars that keeps unmatched rows of the fetched table, and get_join_sequence attaches kind and ON of the right join; "
+         "check_use_limit over limit x group_by x having x distinct x aggregate targets x 66 join-sequence shapes; process_table "
+         "over use_limit x conjunct counts x OR x order-by origin x offset (LIMIT/OFFSET/ORDER moved only when every WHERE conjunct "
+         "is applied in that fetch, ordering columns are its own, OFFSET in exactly one place); plan() re-applies the complete "
+         "outer query; a CTE shadows only an unqualified name.",
+    note="One known finding (pinned by two existing tests): the kind of the last join is never inspected, so LIMIT/OFFSET go below "
+         "an INNER JOIN. Not analysed: plan_union, plan_nested_select, api-db split, NULL keys in the IN semi-join.",
+    technique="abstract interpretation of the planner's decision functions over finite fact spaces (truth tables) against reference pushdown conditions")
+
 NA_PENDING = "check under construction in this session; not claimed until its rule module is committed"
 
 
